@@ -38,24 +38,25 @@ const c10RoomId = "424242"
 
 type c10Step struct {
 	St    int    `json:"st"` // 0-5 see c10Fix.ensure; 7 resume step; 8 client in the room without the permission to send control messages
-	K     string `json:"k"` // doc, bad, bin, over, opaque; resume: no frame of the sender - the session without connection resumes (St 7)
+	K     string `json:"k"`  // doc, bad, bin, over, opaque; resume: no frame of the sender - the session without connection resumes (St 7)
 	Doc   *vj    `json:"doc,omitempty"`
 	Raw   string `json:"raw,omitempty"` // base64 of the frame (bad, bin, over, opaque); placeholders are substituted after decoding
 	Class string `json:"class,omitempty"`
 	// observations
-	Done    bool     `json:"done,omitempty"`
-	Alive   bool     `json:"alive,omitempty"`
-	Replies []string `json:"replies,omitempty"`
-	Closed  bool     `json:"closed,omitempty"`
-	By      []string `json:"by,omitempty"`
-	ByOk    bool     `json:"byok,omitempty"`
-	DSame   bool     `json:"dsame,omitempty"`
-	Api     int      `json:"api,omitempty"`
-	Off     int      `json:"off,omitempty"` // messages added to the queue of the session without connection
-	Live    bool     `json:"live,omitempty"` // after the frame the hub still serves: a bystander's request and a new connection within the bound
-	LiveNote string  `json:"livenote,omitempty"`
-	Orc     []string `json:"orc,omitempty"`
-	Panic   string   `json:"panic,omitempty"`
+	Done     bool     `json:"done,omitempty"`
+	Alive    bool     `json:"alive,omitempty"`
+	Replies  []string `json:"replies,omitempty"`
+	Closed   bool     `json:"closed,omitempty"`
+	By       []string `json:"by,omitempty"`
+	ByOk     bool     `json:"byok,omitempty"`
+	DSame    bool     `json:"dsame,omitempty"`
+	Api      int      `json:"api,omitempty"`
+	Off      int      `json:"off,omitempty"`  // messages added to the queue of the session without connection
+	Live     bool     `json:"live,omitempty"` // after the frame the hub still serves: a bystander's request and a new connection within the bound
+	LiveNote string   `json:"livenote,omitempty"`
+	DDiff    string   `json:"ddiff,omitempty"` // where the digests before and after part (diagnosis)
+	Orc      []string `json:"orc,omitempty"`
+	Panic    string   `json:"panic,omitempty"`
 }
 
 type c10Case struct {
@@ -677,17 +678,25 @@ func (g *c10Gen) enumerate(maxDepth int) {
 		{"unshare", data(kv("type", js("unshareScreen")), kv("roomType", js("screen")))},
 		{"sendoffer", data(kv("type", js("sendoffer")), kv("roomType", js("video")))}}
 	for _, kind := range []string{"control", "message"} {
-		for _, rc := range selfRcpts {
+		for ri, rc := range selfRcpts {
 			for di, s := range selfData {
-				home := []int{2, 8, 3, 1}
-				if di == 0 {
-					home = []int{2, 8, 3, 1, 4, 5}
+				// the plain payload: every recipient in every state with a session; the other payloads:
+				// the recipients that name the sender (and the call) in the room, as client and as internal client
+				home := []int{2, 8, 3, 1, 4, 5}
+				if di > 0 {
+					if ri >= 4 && rc.n != "call" {
+						continue
+					}
+					home = []int{2, 3}
+					if kind == "message" {
+						home = []int{2}
+					}
 				}
-				if kind == "message" && di >= 4 && (rc.n == "session" || rc.n == "room" || rc.n == "call") {
+				if kind == "message" && di >= 4 && (rc.n == "session" || rc.n == "call") {
 					continue // the media payloads x these recipients are in the class mcu/
 				}
 				g.items = append(g.items, c10Item{"self/" + kind + "/" + rc.n + "/" + s.name, c10Msg("o1", kind, kv(kind, jo(kv("recipient", rc.v), kv("data", s.v)))), home})
-				g.hist["self_addressed"]++
+				g.hist["self_addressed"] += len(home)
 			}
 		}
 	}
